@@ -129,6 +129,7 @@ impl<T: PartialEq + Clone> Expect<T> {
 
 #[derive(Clone, Debug)]
 pub struct SpecVerdict {
+    // (see `any_unspec`)
     pub matched: Expect<bool>,
     pub important: Expect<bool>,
     pub exception: Expect<bool>,
@@ -136,6 +137,12 @@ pub struct SpecVerdict {
     pub rewritten: Expect<Option<String>>,
     /// how many rules of the list match the request (non-triviality)
     pub hits: usize,
+}
+
+impl SpecVerdict {
+    pub fn any_unspec(&self) -> bool {
+        self.matched.is_unspec() || self.important.is_unspec() || self.exception.is_unspec() || self.redirect.is_unspec() || self.rewritten.is_unspec()
+    }
 }
 
 /// Splits `value[:priority]` as the property describes: the suffix counts only if it parses as an
@@ -373,7 +380,8 @@ pub fn compare_engine(
     store: &[ResSpec],
 ) -> (Option<String>, SpecOut, Option<crate::net::Verdict>) {
     let active = active_rules_by_text(rules, tags);
-    compare_engine_active(e, &active, req, orig_url, store)
+    let (d, s, g) = compare_engine_active(e, &active, req, orig_url, store);
+    (d, s, g.map(|x| x.0))
 }
 
 pub fn compare_engine_active(
@@ -382,7 +390,7 @@ pub fn compare_engine_active(
     req: &Request,
     orig_url: &str,
     store: &[ResSpec],
-) -> (Option<String>, SpecOut, Option<crate::net::Verdict>) {
+) -> (Option<String>, SpecOut, Option<(crate::net::Verdict, Option<BTreeSet<String>>)>) {
     let spec = spec_check_active(active, req, orig_url, store);
     let got = crate::util::catch(|| {
         let r = e.check_network_request(req);
@@ -399,7 +407,7 @@ pub fn compare_engine_active(
                     None
                 }
             });
-            (d, spec, Some(v))
+            (d, spec, Some((v, csp)))
         }
     }
 }
